@@ -997,6 +997,14 @@ class FileStorage(
                             raise UndoError(
                                 "Can't undo an add transaction followed by"
                                 " conflicting transactions.", oid)
+                    elif self.is_blob_record(current_data):
+                        # The records of all revisions of a blob look
+                        # alike, its data are in the blob files: equal
+                        # records don't show that the later transaction
+                        # left them alone.
+                        raise UndoError(
+                            "Can't undo a blob change followed by a later"
+                            " change of the blob.", oid)
                 except KeyError:
                     # LoadBack gave us a key error. Bail.
                     raise UndoError("_loadBack() failed", oid)
